@@ -58,8 +58,12 @@ def excluded(family, n, cfg, switches):
     u, w, s = cfg
     if "ast-unparse-long-chain" in switches and u == "ast.unparse":
         big = n if isinstance(n, int) else max(n)
-        if big > 300 and (family in size.CHAIN_LIKE or (family in size.STATEMENT_COUNT and w == "chain_call")
-                          or family in size.COMPOSED):
+        # the recursive unparser gives up at about 320-326 links (measured); 300 is too close to
+        # that threshold to be a stable probe point, so the excluded region starts there
+        if big >= 300 and (family in size.CHAIN_LIKE or (family in size.STATEMENT_COUNT and w == "chain_call")):
+            return "ast-unparse-long-chain"
+        if family in size.COMPOSED and sum(n) >= 300:
+            # a composition nests its two sizes: the recursive unparser sees roughly their sum
             return "ast-unparse-long-chain"
         if family == "nest_def" and big > 40:
             return "ast-unparse-long-chain"
